@@ -38,6 +38,11 @@ const DIRECTIVES: &[(&str, &str)] = &[
     ("-- stylua: ignore next\n", "other"),
     ("-- a comment\n", "other"),
     ("-- stylua: ignore start please\n", "other"),
+    // the directive as one line of a block comment that holds other text too (the rule is per comment line)
+    ("--[[\n  generated, keep the layout\n  stylua: ignore\n]]\n", "ignore"),
+    ("--[[ region\n  stylua: ignore start\n  until further notice\n]]\n", "ignoreStart"),
+    ("--[[\n  stylua: ignore end\n  (region above)\n]]\n", "ignoreEnd"),
+    ("--[[\n  not a directive: stylua: ignore\n]]\n", "other"),
 ];
 
 fn make_stmt(r: &mut Rng, id: usize, allow_paren: bool) -> St {
@@ -252,7 +257,12 @@ pub fn run(tier: &str, seed: u64) -> Sink {
         }
         // a statement starting with `(` must be separated from an expression-ending statement
         for k in 1..stmts.len() {
-            if stmts[k].starts_paren && matches!(stmts[k - 1].kind, "assignment" | "localAssignment" | "call" | "repeatB") {
+            // (a statement that ends in a table constructor cannot be continued by `(`: there the semicolon stays
+            // optional in the input, so that "no semicolon written, one needed in the output" occurs as well)
+            if stmts[k].starts_paren
+                && matches!(stmts[k - 1].kind, "assignment" | "localAssignment" | "call" | "repeatB")
+                && !stmts[k - 1].raw.trim_end().ends_with('}')
+            {
                 stmts[k - 1].semi = true;
             }
         }
